@@ -187,3 +187,9 @@ package tchannel
 //@   nilable r
 //@   effect nonblocking
 //@   property C05
+
+// (primary file) "reader only completes on a last fragment whose checksum
+// verified": the fragment reader's parse-and-verify step is part of C05's
+// integrity clause.
+//@ func (r *fragmentingReader) recvAndParseNextFragment(initial bool) (err error)
+//@   property C05
